@@ -18,7 +18,7 @@
 (*                  defines for the logged call   (=> conformance only)    *)
 (* The verdict predicates never consult Apply.                             *)
 (***************************************************************************)
-EXTENDS PropsH, Json, IOUtils, TLCExt
+EXTENDS PropsT, Json, IOUtils, TLCExt
 
 CONSTANTS Strict
 
@@ -87,12 +87,14 @@ CheckRecord(k) ==
          /\ (IF r.same THEN TRUE ELSE Report("FAIL", k, StateClauses(post, LookupOf(r.state))))
          /\ Report("FAIL", k, ActionClauses(pre, c, r.out, post, FullPre(r), FullPost(r)))
          /\ (IF c.op \in {"hq", "hcheck"} THEN Report("FAIL", k, QueryClauses(pre, c, RetOf(r), InfoOf(r))) ELSE TRUE)
+         /\ (IF c.op \in {"uniquify", "flatten"} THEN Report("FAIL", k, TransformClauses(pre, c, r.out, post)) ELSE TRUE)
          /\ (IF HasMirror(r)
              THEN Report("FAIL", k, << <<"C19_MirrorExact", C19_MirrorExact(post, MirrorAfter(r))>>,
                                        <<"C19_BeforeEffect", C19_BeforeEffect(r.ann)>>,
                                        <<"C19_Transparent", IF "agree" \in DOMAIN r THEN r.agree ELSE TRUE>> >>)
              ELSE TRUE)
-         /\ (IF Strict THEN Report("DRIFT", k, StrictClauses(pre, c, r.out, post)) ELSE TRUE)
+         /\ (IF Strict /\ c.op \notin {"uniquify", "flatten"}
+             THEN Report("DRIFT", k, StrictClauses(pre, c, r.out, post)) ELSE TRUE)
 
 Init == l = 0
 Next == l < Len(T) /\ l' = l + 1 /\ CheckRecord(l')
